@@ -178,6 +178,7 @@ package valid
 //@     && forall(k Iface :: has(l.nodeMap, k) ==> l.nodeMap[k] != nil && lst.mem(l.list, l.nodeMap[k]))
 //@     && forall(k1 Iface, k2 Iface :: has(l.nodeMap, k1) && has(l.nodeMap, k2) && l.nodeMap[k1] == l.nodeMap[k2] ==> k1 == k2)
 //@     && forall(x Int :: lst.mem(l.list, x) ==> exists(k Iface :: has(l.nodeMap, k) && l.nodeMap[k] == x))
+//@     && forall(k Iface :: {has(l.nodeMap, k)} has(l.nodeMap, k) ==> comparable(k))
 //@ pred lru.wf(l *valid.LRUCache) = lru.rep(l) && lst.size(l.list) == len(l.nodeMap) && l.maxSize >= 0 && lst.size(l.list) <= l.maxSize
 
 //@ func NewLRU
@@ -192,6 +193,7 @@ package valid
 
 //@ func (*LRUCache).Load
 //@   requires lru.wf(l) && mu.held(addr.rwMu(l)) == 0
+//@   requires [C09 C13 key.comparable] comparable(key)
 //@   modifies lst.stamp(l.list), mu.held(addr.rwMu(l)), mu.acq(addr.rwMu(l))
 //@   ensures lru.wf(l)
 //@   ensures [C09 load.hit]    ok == old(has(l.nodeMap, key)) && (ok ==> data == old(eval(l.nodeMap[key])))
@@ -223,6 +225,7 @@ package valid
 
 //@ func (*LRUCache).Store
 //@   requires lru.wf(l) && mu.held(addr.rwMu(l)) == 0
+//@   requires [C09 C13 key.comparable] comparable(key)
 //@   modifies lst.mem(l.list), lst.stamp(l.list), lst.size(l.list), l.nodeMap, mapof(l.nodeMap), l.delMapCount, "H.container/list.Element.Value", cb.count, cb.key, cb.val, mu.held(addr.rwMu(l)), mu.acq(addr.rwMu(l))
 //@   ensures lru.wf(l) && l.list == old(l.list) && l.maxSize == old(l.maxSize)
 //@   ensures [C09 store.value]  l.maxSize >= 1 ==> has(l.nodeMap, key) && eval(l.nodeMap[key]) == value
@@ -239,6 +242,7 @@ package valid
 
 //@ func (*LRUCache).Delete
 //@   requires lru.wf(l) && mu.held(addr.rwMu(l)) == 0
+//@   requires [C09 C13 key.comparable] comparable(key)
 //@   modifies lst.mem(l.list), lst.size(l.list), l.nodeMap, mapof(l.nodeMap), l.delMapCount, cb.count, cb.key, cb.val, mu.held(addr.rwMu(l)), mu.acq(addr.rwMu(l))
 //@   ensures lru.wf(l)
 //@   ensures [C09 del.gone]   !has(l.nodeMap, key)
@@ -481,12 +485,14 @@ package valid
 
 //@ func (CacheEr).Load(this, key) (value, ok)
 //@   trusted
+//@   requires [C08 C13 key.comparable] comparable(key)
 //@   modifies cache.stored, lst.stamp, mu.held, mu.acq
 //@   ensures [C08 weak.load] ok ==> old(cache.stored(key, value))
 //@   ensures forall(k Iface, x Iface :: cache.stored(k, x) ==> old(cache.stored(k, x)))
 
 //@ func (CacheEr).Store(this, key, value)
 //@   trusted
+//@   requires [C08 C13 key.comparable] comparable(key)
 //@   modifies cache.stored, lst.mem, lst.stamp, lst.size, mu.held, mu.acq, cb.count, cb.key, cb.val, "H.container/list.Element.Value"
 //@   ensures [C08 weak.store] forall(k Iface, x Iface :: cache.stored(k, x) ==> old(cache.stored(k, x)) || (k == key && x == value))
 
@@ -806,3 +812,33 @@ package valid
 //@   modifies mapof(validName2FnMap)
 
 //@ func SetStructTypeCache
+
+// ---------------------------------------------------------------------------
+// struct dumper (C20): object invariant and safety; the JSON typestate clauses follow in the C20 section
+
+//@ pred ds.ok(d *valid.dumpStruct) = d != nil && d.buf != nil
+
+//@ func NewDumpStruct
+//@   modifies nothing
+//@   ensures ds.ok(result) && fresh(result)
+
+//@ func (*dumpStruct).HandleDumpStruct
+//@   requires ds.ok(d)
+//@   modifies sb.content(d.buf), sb.nw(d.buf), d.numBytes
+//@   ensures result == d && ds.ok(d)
+//@   loop#0 invariant ds.ok(d) && 1 <= i && maxIndex == rt.numField(rv.type(tv)) && rv.kind(tv) == 25 && ty == rv.type(tv)
+//@   loop#0 decreases maxIndex - i
+
+//@ func (*dumpStruct).loopHandleKV
+//@   requires ds.ok(d) && rv.valid(tv)
+//@   modifies sb.content(d.buf), sb.nw(d.buf), d.numBytes
+//@   ensures ds.ok(d)
+//@   loop#0 invariant ds.ok(d) && 0 <= i && sliceLen == rv.len(tv) && (rv.kind(tv) == 23 || rv.kind(tv) == 17)
+//@   loop#0 decreases sliceLen - i
+//@   loop#1 invariant ds.ok(d) && mapObj != nil && mi.src(mapObj) == tv && mi.pos(mapObj) >= -1 && mi.pos(mapObj) < rv.len(tv) && tmpIndex == mi.pos(mapObj) + 1
+
+//@ func (*dumpStruct).Get
+//@   requires ds.ok(d)
+
+//@ func GetDumpStructStr
+//@ func GetDumpStructStrForJson
